@@ -43,3 +43,10 @@ pub mod c12_gen;
 mod c20;
 #[cfg(kani)]
 mod c13;
+
+/// a byte slice serialised through serialize_bytes (helper shared by harness modules)
+#[derive(serde::Serialize)]
+pub struct BytesSer<'a>(#[serde(with = "crate::types::bytes_as_bytes")] pub &'a [u8]);
+pub fn c07_bytes_ser(b: &[u8]) -> BytesSer<'_> {
+    BytesSer(b)
+}
